@@ -289,41 +289,21 @@ def check(pid, tier, seed):
     if moved and tier == "quick" and not disagreements and not breaks:
         budget = float(os.environ.get("BARRIL_ESCALATE_S", "90"))
         t_esc = time.time()
-        ctx2 = Ctx("thorough", seed, data)
-        if hasattr(prop, "setup"):
-            prop.setup(ctx2)
-        batch, extra = [], 0
-
-        def flush(batch):
-            ios = [prop.impl(c, ctx2) for c in batch]
-            mos, _dt = run_driver(prop.DRIVER_EXE, [dumps(prop.model_line(c) if hasattr(prop, "model_line") else c) for c in batch])
-            for c, io, mo in zip(batch, ios, mos):
-                stats["evaluations"] += 1
-                if "bad" in mo:
-                    raise Infra("driver rejected %r: %s" % (c, mo["bad"]))
-                why = prop.agree(c, io, mo, ctx2)
-                if why is None:
-                    stats["agree"] += 1
-                    if prop.nontrivial(c, io):
-                        nontrivial.add(hashlib.sha1(dumps(prop.case_key(c) if hasattr(prop, "case_key") else c).encode()).digest()[:8])
-                else:
-                    stats["disagree"] += 1
-                    if len(disagreements) < 200:
-                        disagreements.append(dict(case=c, impl=io, model=mo, why=why))
-
-        for c in prop.cases(ctx2):
-            batch.append(c)
-            if len(batch) >= 1000:
-                flush(batch)
-                extra += len(batch)
-                batch = []
-                if disagreements or time.time() - t_esc > budget:
-                    break
-        else:
-            if batch:
-                flush(batch)
-                extra += len(batch)
-        ctx.notes["escalated_cases_thorough_generators"] = extra
+        # in a fresh process: property modules may keep per-process state in their generators
+        out_path = os.path.join(LEAN_DIR, ".audit", "escalate_%s_%d.json" % (pid, os.getpid()))
+        rc, out, err, _dt = run([sys.executable, os.path.join(VERIF, "harness", "main.py"), pid, "--corr-only",
+                                 "--budget", str(budget), "--out", out_path], cwd=VERIF, timeout=3000)
+        if rc != 0 or not os.path.exists(out_path):
+            raise Infra("escalation pass failed: %s" % (out + err)[-800:])
+        with open(out_path, encoding="utf8") as f:
+            esc = json.load(f)
+        os.remove(out_path)
+        stats["evaluations"] += esc["evaluations"]
+        stats["agree"] += esc["agree"]
+        stats["disagree"] += esc["disagree"]
+        nontrivial.update(bytes.fromhex(h) for h in esc["nontrivial"])
+        disagreements += esc["disagreements"]
+        ctx.notes["escalated_cases_thorough_generators"] = esc["evaluations"]
         ctx.notes["escalation_seconds"] = round(time.time() - t_esc, 1)
     if disagreements:
         breaks.append(("correspondence", "%d of %d cases: model and implementation differ; first: %s" % (
@@ -410,6 +390,50 @@ def check(pid, tier, seed):
     write_evidence(pid, tier, seed, coverage, time.time() - t0, violations,
                    list(getattr(prop, "ASSUMPTIONS", [])))
     return 1 if violations else 0
+
+
+def corr_only(pid, seed, budget, out_path):
+    """Second pass of the correspondence with the thorough generators for a bounded time (used where the source
+    moved, see check()); runs in its own process and reports through a JSON file."""
+    prop = load_prop(pid)
+    load_barril()
+    import translate
+
+    data = translate.read_all()
+    ctx = Ctx("thorough", seed, data)
+    if hasattr(prop, "setup"):
+        prop.setup(ctx)
+    t0 = time.time()
+    # as in check(): all cases are generated before the first one is executed (generators may prepare state
+    # that the executions rely on); the time budget cuts the list of executions, not the generation
+    batch, ios = [], []
+    for c in list(prop.cases(ctx)):
+        batch.append(c)
+        ios.append(prop.impl(c, ctx))
+        if len(batch) % 200 == 0 and time.time() - t0 > budget:
+            break
+    res = dict(evaluations=0, agree=0, disagree=0, nontrivial=[], disagreements=[])
+    if batch:
+        # one driver process for the whole pass (drivers may keep session state from line to line)
+        mos, _dt = run_driver(prop.DRIVER_EXE, [dumps(prop.model_line(c) if hasattr(prop, "model_line") else c) for c in batch])
+        seen = set()
+        for c, io, mo in zip(batch, ios, mos):
+            res["evaluations"] += 1
+            if "bad" in mo:
+                raise Infra("driver rejected %r: %s" % (c, mo["bad"]))
+            why = prop.agree(c, io, mo, ctx)
+            if why is None:
+                res["agree"] += 1
+                if prop.nontrivial(c, io):
+                    seen.add(hashlib.sha1(dumps(prop.case_key(c) if hasattr(prop, "case_key") else c).encode()).digest()[:8].hex())
+            else:
+                res["disagree"] += 1
+                if len(res["disagreements"]) < 200:
+                    res["disagreements"].append(dict(case=c, impl=io, model=mo, why=why))
+        res["nontrivial"] = sorted(seen)
+    with open(out_path, "w", encoding="utf8") as f:
+        json.dump(res, f, default=str)
+    return 0
 
 
 def replay(pid, path):
